@@ -8,6 +8,7 @@ package main
 
 import (
 	"context"
+	"fmt"
 	"sync"
 	"time"
 
@@ -101,4 +102,79 @@ func c36renew(seed uint64, seconds int) {
 	mu.Lock()
 	out["ok_ops"], out["failed_ops"], out["notifications"] = okOps, failOps, notifs
 	mu.Unlock()
+}
+
+// c36subs: subscriptions that nobody publishes for time out on their own goroutines in the server (Subscription.run ->
+// DeleteSubscription) after the dispatcher has looked a subscription up for a CreateMonitoredItems request and while
+// the client stays idle, so that nothing but the service mutexes orders the lookup and the removal.
+func c36subs(seed uint64, rounds int) {
+	quietLogs()
+	out := map[string]interface{}{"kind": "c36", "scenario": "subs"}
+	defer func() { emit(out) }()
+	ts, err := startServer([]secPair{{"None", ua.MessageSecurityModeNone}}, nil, 3)
+	if err != nil {
+		out["err"] = err.Error()
+		return
+	}
+	defer ts.Close()
+	ctx, cancel := context.WithTimeout(context.Background(), 120*time.Second)
+	defer cancel()
+	if _, err := getEndpoints(ctx, ts.URL); err != nil {
+		out["err"] = err.Error()
+		return
+	}
+	c, err := plainClient(ctx, ts.URL, opcua.RequestTimeout(20*time.Second), opcua.AutoReconnect(false))
+	if err != nil {
+		out["err"] = err.Error()
+		return
+	}
+	defer c.Close(context.Background())
+	createSub := func(intervalMs float64, lifetime, keepalive uint32) (uint32, error) {
+		var id uint32
+		err := c.Send(ctx, &ua.CreateSubscriptionRequest{RequestedPublishingInterval: intervalMs, RequestedLifetimeCount: lifetime,
+			RequestedMaxKeepAliveCount: keepalive, PublishingEnabled: true}, func(v ua.Response) error {
+			if r, ok := v.(*ua.CreateSubscriptionResponse); ok {
+				id = r.SubscriptionID
+				return nil
+			}
+			return fmt.Errorf("unexpected response %T", v)
+		})
+		return id, err
+	}
+	// created with a plain request: the client does not start its publish loop, no Publish request is ever queued
+	subB, err := createSub(60_000, 10_000, 10_000)
+	if err != nil {
+		out["err"] = "create B: " + err.Error()
+		return
+	}
+	r := rng.New(seed)
+	handle := uint32(1000)
+	created, items := 0, 0
+	for round := 0; round < rounds; round++ {
+		for k := 0; k < 5; k++ { // expire at the first tick without a Publish request: after 250..700 ms
+			if _, err := createSub(float64(250+90*k+r.Intn(40)), 0, 0); err != nil {
+				out["err"] = "create: " + err.Error()
+				return
+			}
+			created++
+		}
+		req := &ua.CreateMonitoredItemsRequest{SubscriptionID: subB, TimestampsToReturn: ua.TimestampsToReturnBoth}
+		for i := 0; i < 40; i++ {
+			handle++
+			req.ItemsToCreate = append(req.ItemsToCreate, opcua.NewMonitoredItemCreateRequestWithDefaults(ts.Nodes[i%len(ts.Nodes)], ua.AttributeIDValue, handle))
+		}
+		err := c.Send(ctx, req, func(v ua.Response) error {
+			if r, ok := v.(*ua.CreateMonitoredItemsResponse); ok {
+				items += len(r.Results)
+				return nil
+			}
+			return fmt.Errorf("unexpected response %T", v)
+		})
+		if err != nil {
+			out["err"] = "CreateMonitoredItems: " + err.Error()
+			return
+		}
+		time.Sleep(1100 * time.Millisecond) // idle: the short subscriptions time out now
+	}
+	out["subscriptions_created"], out["items_created"] = created, items
 }
